@@ -31,6 +31,7 @@ def jobs():
                           group="scenario-build-" + what, witness=(k <= 2),
                           desc="PDU building with forced growth (%s path): allocation #%d fails" % (what, k), bounds={"scenario": "build-" + what, "failing allocation": k}))
     for name, entry, desc in (("optlist", "c18_optlist", "URI to optlist helpers"),
+                              ("uri", "c18_uri", "coap_uri_into_optlist (Uri-Host, Uri-Port, Uri-Path, Uri-Query)"),
                               ("send", "c18_send", "coap_send_internal of a CON"), ("strings", "c18_strings", "strings / error response derived from a request")):
         js.append(Job("scenario-%s" % name, "C18/c18.c", entry, UNITS, extra_src=EXTRA, defines=d, remove_bodies=RB_CLIENT, unwind=24, flags=FS,
                       timeout=1800, est_gb=4, desc="%s: any subset of allocations fails" % desc, bounds={"scenario": name}))
